@@ -13,6 +13,7 @@ import jax
 import jax.numpy as jnp
 import flax.linen as nn
 from flax.core import unfreeze
+from flax.typing import In, Out
 
 begin('C06')
 
@@ -58,6 +59,10 @@ def _vcell_body(self, x, b=None):
     h = x if b is None else x + b
     inner = L.make_module(L.thaw(self.spec), self.dim, name='inner')
     h = inner(h)
+    if self.sow_acts:
+      # written inside the mapped function only ('acts' is lifted with an
+      # Out(axis) marker: output-only collection)
+      self.sow('acts', 'h', h * 3.0)
     if self.has_rng('dropout'):
       kd = jax.random.key_data(self.make_rng('dropout')).astype(jnp.uint32)
     else:
@@ -69,6 +74,7 @@ class VCell(nn.Module):
   """x -> (y, key_data) for vmap."""
   spec: Any = None
   dim: int = 2
+  sow_acts: bool = False
 
   @nn.compact
   def __call__(self, x, b=None):
@@ -98,6 +104,7 @@ def method_form(transform, body, kw):
       class MCell(nn.Module):
         spec: Any = None
         dim: int = 2
+        sow_acts: bool = False
 
         @functools.partial(transform, **kw)
         @nn.compact
@@ -628,6 +635,10 @@ def vmap_case():
       'mutable': st.lists(st.sampled_from(STATE), max_size=2, unique=True),
       'seed': st.integers(0, 2**16),
       'form': st.sampled_from(['class', 'class', 'method', 'class_methods']),
+      # In(axis) / Out(axis) markers of flax.typing: an output-only sown
+      # collection, input-only (read-only) state collections at apply time
+      'out_marker': st.sampled_from([None, None, 0, 1]),
+      'in_marker': st.booleans(),
   })
 
 
@@ -636,7 +647,9 @@ def vmap_case():
         rule='generated mapped programs x transform applied to the class or '
         'as a method decorator x axis (0/1/None) of params x axis '
         '(0/None) of state collections x batch size 1-4 x in/out axes 0/1 x '
-        'unmapped input x split_rngs: init shapes and split/unsplit '
+        'unmapped input x split_rngs x an output-only sown collection lifted '
+        'with Out(0/1) x read-only collections lifted with In(axis) at apply '
+        'time: init shapes and split/unsplit '
         'initialisation; apply equals calling the unlifted module once per '
         'index on the sliced variables (outputs and returned collections '
         'stacked along the declared axes, None-axis collections shared and '
@@ -663,8 +676,12 @@ def vmap_vs_per_index(case, ctx):
            'dropout': case['split_dropout']}
   in_axes = (case['in_axis'], None) if b is not None else case['in_axis']
   form = case.get('form', 'class')
-  with sut('nn.vmap'):
-    vkw = dict(variable_axes=axes, split_rngs=split, in_axes=in_axes,
+  out_k = case.get('out_marker')
+  sow_acts = out_k is not None
+  mutable = [c for c in case['mutable'] if c in cols and axes.get(c) is not None]
+
+  def build(var_axes):
+    vkw = dict(variable_axes=var_axes, split_rngs=split, in_axes=in_axes,
                out_axes=case['out_axis'], axis_size=n)
     if form == 'class':
       VM = nn.vmap(VCell, **vkw)
@@ -672,8 +689,23 @@ def vmap_vs_per_index(case, ctx):
       VM = nn.vmap(VCell, methods=['__call__'], **vkw)
     else:
       VM = method_form(nn.vmap, _vcell_body, vkw)
-    mapped = VM(spec=spec, dim=D)
-  plain = VCell(spec=spec, dim=D)
+    return VM(spec=spec, dim=D, sow_acts=sow_acts)
+
+  with sut('nn.vmap'):
+    lift_axes = dict(axes)
+    if sow_acts:
+      lift_axes['acts'] = Out(out_k)
+    mapped = build(lift_axes)
+    # at apply time collections that are only read may be lifted input-only
+    apply_axes = dict(lift_axes)
+    in_marked = []
+    if case.get('in_marker'):
+      for c, a in axes.items():
+        if a is not None and c not in mutable:
+          apply_axes[c] = In(a)
+          in_marked.append(c)
+    mapped_apply = build(apply_axes) if in_marked else mapped
+  plain = VCell(spec=spec, dim=D, sow_acts=sow_acts)
   args = (jnp.asarray(xs),) + ((jnp.asarray(b),) if b is not None else ())
   keys = {'params': jax.random.key(case['seed']),
           'dropout': jax.random.key(case['seed'] + 1)}
@@ -682,6 +714,15 @@ def vmap_vs_per_index(case, ctx):
   with sut('plain init'):
     Vp = unfreeze(plain.init(keys, jnp.asarray(xs_base[0]),
                              *((jnp.asarray(b),) if b is not None else ())))
+  if sow_acts:
+    # output-only collection: what every index sowed, stacked along out_k
+    a_v, a_p = V.pop('acts', None), Vp.pop('acts')
+    require(a_v is not None and set(a_v) == {'h'} and len(a_v['h']) == 1
+            and np.shape(a_v['h'][0]) == np.shape(
+                np.stack([np.asarray(a_p['h'][0])] * n, axis=out_k)),
+            lambda: f'init: Out({out_k}) collection acts is '
+            f'{jax.tree_util.tree_map(np.shape, a_v)}, per-index value has '
+            f'shape {np.shape(a_p["h"][0])} (n={n})')
   fp, fv = L.flat(Vp), L.flat(V)
   require(set(fp) == set(fv), lambda: f'vmap init tree {sorted(fv)} != plain '
           f'{sorted(fp)}')
@@ -700,10 +741,13 @@ def vmap_vs_per_index(case, ctx):
                 f'{split["params"]} but slices identical={same}')
     else:
       require(np.shape(leaf) == base_shape, f'{p}: unmapped shape changed')
-  mutable = [c for c in case['mutable'] if c in cols and axes.get(c) is not None]
+  ret_axes = dict(axes)
+  if sow_acts:
+    mutable = mutable + ['acts']
+    ret_axes['acts'] = out_k
   with sut('vmap apply'):
-    r = mapped.apply(V, *args, rngs={'dropout': keys['dropout']},
-                     mutable=mutable if mutable else False)
+    r = mapped_apply.apply(V, *args, rngs={'dropout': keys['dropout']},
+                           mutable=mutable if mutable else False)
   if mutable:
     (y_s, kd_s), upd_s = r
     upd_s = unfreeze(upd_s)
@@ -730,16 +774,18 @@ def vmap_vs_per_index(case, ctx):
           f'{case["out_axis"]})')
   require(set(upd_s) == set(mutable), 'vmap returned collections')
   for c in mutable:
-    require(flat_close({c: upd_s[c]}, {c: stack(outs[c], axes[c])}),
-            lambda: f'collection {c} after vmap differs from per-index stack')
+    require(flat_close({c: upd_s[c]}, {c: stack(outs[c], ret_axes[c])}),
+            lambda: f'collection {c} after vmap differs from per-index stack '
+            f'(variable_axes={apply_axes})')
   kd = np.moveaxis(np.asarray(kd_s), case['out_axis'], 0)
   if n >= 2:
     rows = {tuple(r_) for r_ in kd.reshape(n, -1)}
     require((len(rows) == n) if split['dropout'] else (len(rows) == 1),
             lambda: f'dropout split={split["dropout"]} but {len(rows)} '
             f'distinct keys over {n} indices')
-  ctx.note(labels=[f'n{n}', f'form-{form}'] + sorted(f'{c}:{a}' for c, a in
-                                                   axes.items()),
+  ctx.note(labels=[f'n{n}', f'form-{form}', f'Out-{out_k}',
+                   'In' if in_marked else 'noIn']
+           + sorted(f'{c}:{a}' for c, a in axes.items()),
            nontrivial=(len(set(axes.values())) >= 2 and n >= 2)
            or any(a not in (0, None) for a in axes.values()))
 
